@@ -379,14 +379,14 @@ func c07BigCheck(c c07Big) string {
 		return head + "the call succeeded"
 	}
 	if !c.Massive && len(created) != 0 {
-		return fmt.Sprintf("%sthe tree was rejected (%s) but %d entries had already been created (first: %q)", head, res.Err.Text, len(created), created[0])
+		return fmt.Sprintf("%sthe tree was rejected (%s) but %d entries had already been created (first: %q)", head, res.Err.Text, len(created), truncate(created[0], 80))
 	}
 	return ""
 }
 
 func TestC07BigInput(t *testing.T) {
 	col := coll("C07", "big-input")
-	sizes := []int{70_000, 1<<20 + 1}
+	sizes := []int{70_000, 1<<20 + 1, 4<<20 + 1}
 	if thorough() {
 		sizes = []int{70_000, 1<<20 + 1, 4<<20 + 1, 9 << 20}
 	}
@@ -402,6 +402,9 @@ func TestC07BigInput(t *testing.T) {
 					}
 					if !thorough() && sz > 100_000 && (at == 1 || massive) {
 						continue
+					}
+					if !thorough() && sz > 2_000_000 && (at != 500 || rd == 0) {
+						continue // quick tier: the multi-megabyte size only through the two size-aware readers
 					}
 					c := c07Big{Bytes: sz, Reader: rd, At: at, Hostile: []string{"../../escaped", "..", "a/b"}[n%3], Massive: massive, Alias: n%5 == 0}
 					col.eval(true, hash64(fmt.Sprint(c)), fmt.Sprintf("size:%d", sz), fmt.Sprintf("reader:%d", rd), fmt.Sprintf("massive:%v", massive))
